@@ -11,6 +11,7 @@ Each property checks its own *aspects* of every step (see DESIGN 3, soundness ru
     outcome   outcome class, error attributes, yielded fields
     registry  deep registry snapshot equals the model after the step
     writes    non-query, non-request writes == reactions + released commands (multiset)
+    sendwrites / flush   what an application send writes at once; what a wake releases (C07's own)
     vquery    number of version queries
     presreq   presentation-request writes
     idalloc   the id handed out is fresh / in range / registered at write time
@@ -52,6 +53,8 @@ def classify(status: str, value: Any) -> str:
         return "leak"
     if status == "drained":
         return "drained"
+    if status == "cancelled":
+        return "cancelled"
     if isinstance(value, InvalidMessageError):
         return "invalid"
     if isinstance(value, MissingNodeError):
@@ -106,7 +109,9 @@ async def run_history(
     hooks: dict | None = None,
 ) -> tuple[Outcome | None, dict]:
     """Execute the history (optionally with the library logging at DEBUG). Returns (violation or None, info)."""
-    with env.debug_logging(bool(case.get("debug_log"))):
+    with env.debug_logging(bool(case.get("debug_log"))), env.FakeClock() as clock:
+        hooks = dict(hooks or {})
+        hooks["_clock"] = clock
         bad, info = await _run_history(case, aspects, hooks=hooks)
     tmpdir = info.pop("tmpdir", None)
     if tmpdir is not None:
@@ -153,6 +158,22 @@ async def _run_history(
             info["in_session"] = True
             classes["session-restart"] += 1
             continue
+        if kind == "read_error":
+            # the transport fails to read (line noise, a dropped link): a library error, and nothing else changes
+            writes_before = len(transport.writes)
+            status, value = await (listener.next(env.read_error(op[1])) if listener else env.rx(gateway, env.read_error(op[1])))
+            classes["op:read_error"] += 1
+            if status == "leak":
+                if "leak" in aspects:
+                    return bad(f"leak:{env.exc_sig(value)}", f"{value!r}", idx), info
+            elif status != "liberr" or not isinstance(value, TransportError):
+                if "outcome" in aspects:
+                    return bad("read-error-not-reported", f"the transport's read raised a TransportError; listen gave {status} {value!r}", idx), info
+            if len(transport.writes) != writes_before and ("writes" in aspects or "vquery" in aspects or "presreq" in aspects):
+                return bad("write-after-read-error", f"a failed read was followed by writes {transport.writes[writes_before:]!r}", idx), info
+            if env.snapshot(gateway.nodes) != model.nodes and "registry" in aspects:
+                return bad("registry-changed-by-read-error", "the registry changed although nothing was received", idx), info
+            continue
         if kind in ("save", "reload"):
             # the registry is written to its persistence file (scheduled save, or leaving the gateway context) / read back
             # from it (entering the context again): Persistence shares the gateway's registry dict, as Gateway builds it
@@ -174,10 +195,11 @@ async def _run_history(
                 else:
                     await info["persistence"].load()
                     if info["saved"] is None:
-                        info["saved"] = copy.deepcopy(model.nodes)  # a missing file is created from the current registry
-                    for key, saved_node in info["saved"].items():
-                        model.nodes[key] = copy.deepcopy(saved_node)  # every node in the file replaces the one in the registry
-                        model.reboot.discard(int(key))  # ... as a new object: an application flag on the old object is gone
+                        info["saved"] = copy.deepcopy(model.nodes)  # a missing file is created from the current registry; nothing is replaced
+                    else:
+                        for key, saved_node in info["saved"].items():
+                            model.nodes[key] = copy.deepcopy(saved_node)  # every node in the file replaces the one in the registry
+                            model.reboot.discard(int(key))  # ... as a new object: an application flag on the old object is gone
             except Exception as err:  # noqa: BLE001
                 if "leak" in aspects or "registry" in aspects:
                     return bad(f"{kind}-raises:{type(err).__name__}", f"{err!r}", idx), info
@@ -195,6 +217,11 @@ async def _run_history(
             continue
         if kind == "sleep":
             await asyncio.sleep(float(op[1]))  # meaningful on the virtual-time loop
+            hooks["_clock"].advance(float(op[1]))  # the process clocks (time.monotonic, time.time) move along
+            continue
+        if kind == "tick":
+            hooks["_clock"].advance(float(op[1]))  # time passes for time.monotonic()/time.time() only (usable on a real loop)
+            classes["op:tick"] += 1
             continue
         if kind == "install":
             # the registry grows outside the handlers (persistence.load on a running gateway, or the application itself)
@@ -221,7 +248,29 @@ async def _run_history(
                     model.reboot.discard(node)
             continue
         if kind == "send":
+            info["sends_seen"] = True
             _k, fields, buffer = op
+            if fields[2] != 1:
+                # the application sends something that is not a set command (a value request, an internal command):
+                # it is written now or held by the library for a sleeping destination (C12 judges that) - what the
+                # properties here care about is that it leaves the parked set commands and the reactions alone
+                from vf.codec_ref import ref_format as _ref_format
+
+                status, value = await env.send(gateway, env.mk_message(fields), buffer)
+                got = transport.writes_at(idx)
+                own = _ref_format(*fields)
+                classes["send-other-command"] += 1
+                if status == "leak" and "leak" in aspects:
+                    return bad(f"send-leak:{env.exc_sig(value)}", f"{value!r}", idx), info
+                if status == "ok" and not got:
+                    info.setdefault("other_pending", Counter())[own] += 1
+                elif status == "ok" and got != [own]:
+                    if "sendwrites" in aspects:
+                        return bad("send-wrong-write", f"send of {fields!r} wrote {got!r}", idx), info
+                    info["diverged"] = True
+                    classes["diverged-elsewhere"] += 1
+                    return None, info
+                continue
             key = (fields[0], fields[1], fields[4])
             had_key = key in model.parked
             flushed_before = fields[0] in info.setdefault("flushed_nodes", set())
@@ -237,13 +286,13 @@ async def _run_history(
             if status == "leak" and "leak" in aspects:
                 return bad(f"send-leak:{env.exc_sig(value)}", f"{value!r}", idx), info
             if status != "ok":
-                if "writes" in aspects:
+                if "sendwrites" in aspects:
                     return bad(f"send-raises:{type(value).__name__}", f"send raised {value!r}", idx), info
                 info["diverged"] = True
                 classes["diverged-elsewhere"] += 1
                 return None, info
             if Counter(got) != Counter(expected):
-                if "writes" in aspects:
+                if "sendwrites" in aspects:
                     sig = "send-not-parked" if not expected else ("send-not-written" if not got else "send-wrong-write")
                     return bad(sig, f"send wrote {got!r}, expected {expected!r}", idx), info
                 info["diverged"] = True
@@ -266,10 +315,17 @@ async def _run_history(
             transport.on_write = on_write
         if "before_rx" in hooks:
             hooks["before_rx"](rec, gateway, transport, model)
-        if listener is not None:
-            rec.status, rec.value = await listener.next(line)
+        receive = listener.next(line) if listener is not None else env.rx(gateway, line)
+        if case.get("rx_timeout"):
+            # the application bounds every receive with a timeout (virtual time): a hung write ends in a cancellation
+            try:
+                rec.status, rec.value = await asyncio.wait_for(receive, float(case["rx_timeout"]))
+            except asyncio.TimeoutError as err:
+                rec.status, rec.value = "cancelled", err
+                transport.inbox.clear()
+                classes["rx-cancelled"] += 1
         else:
-            rec.status, rec.value = await env.rx(gateway, line)
+            rec.status, rec.value = await receive
         transport.on_write = None
         rec.outcome = classify(rec.status, rec.value)
         rec.writes = transport.writes_at(idx)
@@ -334,6 +390,13 @@ async def _run_history(
         queries = [w for w in rec.writes if w == VERSION_QUERY]
         requests = [w for w in rec.writes if PRESREQ.match(w)]
         rest = [w for w in rec.writes if w != VERSION_QUERY and not PRESREQ.match(w)]
+        held_other = info.get("other_pending")
+        if held_other:
+            # a non-set command the library held back earlier may be handed over now (C12's subject, not judged here)
+            for written in list(rest):
+                if held_other.get(written, 0) > 0 and written.split(";")[2] != "1":
+                    held_other[written] -= 1
+                    rest.remove(written)
         expected_rest: list[str] = []
         if rec.outcome == "ok":
             expected_rest += pred.reactions
@@ -385,6 +448,11 @@ async def _run_history(
                 extra = Counter(rest) - Counter(expected_rest)
                 if pred.flush_node is not None or any(w.split(";")[2] == "1" and pred.fields and pred.fields[2] != 2 for w in extra):
                     sig = f"flush:{'missing' if missing else 'extra'}:{mk}"
+                    if "flush" not in aspects and not (Counter(pred.reactions) - Counter(rest)) and info.get("sends_seen"):
+                        # only the release of parked commands differs: C07's subject
+                        info["diverged"] = True
+                        classes["diverged-elsewhere"] += 1
+                        return None, info
                 else:
                     sig = f"reaction:{'missing' if missing else 'extra'}:{mk}"
                 return bad(sig, f"wrote {rest!r}, expected {expected_rest!r}", idx), info
